@@ -16,3 +16,5 @@ open Spydr.Xform
 #print axioms flatten_finishes
 #print axioms connU_eq_conn
 #print axioms flatten_preserves_elab_conn
+#print axioms uniquify_behind_original
+#print axioms uniquify_finishes
